@@ -1,7 +1,269 @@
 package main
 
-// Replay of counterexamples against the real code (go test -overlay).
+// Replay of counterexamples against the real code.  The solver's model for the inputs of a
+// function is turned into an in-package Go test (injected with `go test -overlay`, nothing is
+// written into the repository), the real function is run on those inputs and the failed
+// contract clause is evaluated on the OBSERVED outputs.  Only functions whose inputs are scalars,
+// slice lengths and a clock reading are replayed this way (tier 1: the arithmetic core of
+// context.go and the timer arithmetic); for the others the replay file carries the model only.
 
+import (
+	"encoding/json"
+	"fmt"
+	"math/big"
+	"os"
+	"os/exec"
+	"path/filepath"
+	"regexp"
+	"strings"
+	"time"
+)
+
+var getValueRe = regexp.MustCompile(`\(\s*(\|[^|]+\||[^\s()]+)\s+(\(-\s*\d+\)|-?\d+|true|false)\s*\)`)
+
+// parseModel reads z3/cvc5 get-value output "((name val) ...)".
+func parseModel(model string) map[string]string {
+	out := map[string]string{}
+	for _, m := range getValueRe.FindAllStringSubmatch(model, -1) {
+		name := strings.Trim(m[1], "|")
+		val := m[2]
+		if strings.HasPrefix(val, "(") {
+			val = "-" + strings.TrimSpace(strings.Trim(val, "()-"))
+		}
+		out[name] = val
+	}
+	return out
+}
+
+type replaySpec struct {
+	setup  func(m map[string]string) (string, bool) // Go statements building `c` and calling the function; prints GOVC-RESULT lines
+	result []string                                 // names printed
+}
+
+func mval(m map[string]string, k, def string) string {
+	if v, ok := m[k]; ok {
+		return v
+	}
+	return def
+}
+
+func inU(v string, bits uint) bool {
+	b, ok := new(big.Int).SetString(v, 10)
+	if !ok || b.Sign() < 0 {
+		return false
+	}
+	return b.BitLen() <= int(bits)
+}
+
+const replayPrelude = `package dbft
+
+import (
+	"fmt"
+	"testing"
+	"time"
+)
+
+type govcHash [4]byte
+
+func (h govcHash) String() string { return fmt.Sprintf("%x", h[:]) }
+
+type govcTimer struct{ now int64 }
+
+func (t govcTimer) Now() time.Time                                 { return time.Unix(0, t.now) }
+func (t govcTimer) Reset(height uint32, view byte, d time.Duration) {}
+func (t govcTimer) Extend(d time.Duration)                         {}
+func (t govcTimer) Height() uint32                                 { return 0 }
+func (t govcTimer) View() byte                                     { return 0 }
+func (t govcTimer) C() <-chan time.Time                            { return nil }
+
+type govcTx struct{ h govcHash }
+
+func (t govcTx) Hash() govcHash { return t.h }
+
+func govcContext(n int, height uint32, view byte, incr, last uint64, now int64, pool int, ext bool) *Context[govcHash] {
+	cfg := &Config[govcHash]{TimestampIncrement: incr, Timer: govcTimer{now}}
+	cfg.GetVerified = func() []Transaction[govcHash] {
+		txx := make([]Transaction[govcHash], pool)
+		for i := range txx {
+			var h govcHash
+			h[0], h[1] = byte(i), byte(i>>8)
+			txx[i] = govcTx{h}
+		}
+		return txx
+	}
+	if ext {
+		cfg.MaxTimePerBlock = func() time.Duration { return time.Hour }
+	}
+	c := &Context[govcHash]{Config: cfg}
+	c.Validators = make([]PublicKey, n)
+	c.BlockIndex = height
+	c.ViewNumber = view
+	c.lastBlockTimestamp = last
+	c.Transactions = map[govcHash]Transaction[govcHash]{}
+	return c
+}
+`
+
+// replayObligation tries to confirm a failed obligation on the real code.
 func replayObligation(w *World, o *Obligation, repo string) *ReplayResult {
-	return nil
+	if o.Pkg != "dbft" || o.Verdict != VSat || o.Model == "" {
+		return nil
+	}
+	m := parseModel(o.Model)
+	n := mval(m, "Context.Validators.len", "1")
+	height := mval(m, "Context.BlockIndex", "0")
+	incr := mval(m, "Config.TimestampIncrement", "1000000")
+	last := mval(m, "Context.lastBlockTimestamp", "0")
+	if !inU(n, 16) || n == "0" || !inU(height, 32) || !inU(incr, 63) || incr == "0" || !inU(last, 63) {
+		return &ReplayResult{How: "model values outside the replayable range (validator count 1..65535, machine integers)"}
+	}
+	var body, what string
+	switch o.Func {
+	case "(*Context).GetPrimaryIndex":
+		v := mval(m, "in.viewNumber", "0")
+		if !inU(v, 8) {
+			return nil
+		}
+		body = fmt.Sprintf("c := govcContext(%s, %s, 0, 1, 0, 0, 0, false)\n\tr := c.GetPrimaryIndex(%s)\n\tfmt.Printf(\"GOVC-RESULT result=%%d\\n\", r)", n, height, v)
+		what = fmt.Sprintf("GetPrimaryIndex(view=%s) with BlockIndex=%s, %s validators", v, height, n)
+	case "(*Context).F", "(*Context).M", "(*Context).N":
+		fn := strings.TrimPrefix(o.Func, "(*Context).")
+		body = fmt.Sprintf("c := govcContext(%s, %s, 0, 1, 0, 0, 0, false)\n\tr := c.%s()\n\tfmt.Printf(\"GOVC-RESULT result=%%d\\n\", r)", n, height, fn)
+		what = fmt.Sprintf("%s() with %s validators", fn, n)
+	case "(*Context).Fill", "(*Context).getTimestamp":
+		now := mval(m, "call.Timer.Now!1", mval(m, "ghost.gClock", "0"))
+		for k, v := range m {
+			if strings.HasPrefix(k, "call.Timer.Now!") {
+				now = v
+			}
+		}
+		if !inU(now, 62) {
+			return nil
+		}
+		pool := mval(m, "call.Config.GetVerified!1.len", "0")
+		for k, v := range m {
+			if strings.HasPrefix(k, "call.Config.GetVerified!") && strings.HasSuffix(k, ".len") {
+				pool = v
+			}
+		}
+		if !inU(pool, 10) {
+			pool = "3"
+		}
+		force := mval(m, "in.force", "true")
+		ext := "false"
+		if o.Func == "(*Context).Fill" {
+			body = fmt.Sprintf("c := govcContext(%s, %s, 0, %s, %s, %s, %s, %s)\n\tok := c.Fill(%s)\n\tfmt.Printf(\"GOVC-RESULT result=%%v timestamp=%%d hashes=%%d\\n\", ok, c.Timestamp, len(c.TransactionHashes))", n, height, incr, last, now, pool, ext, force)
+		} else {
+			body = fmt.Sprintf("c := govcContext(%s, %s, 0, %s, %s, %s, %s, %s)\n\tr := c.getTimestamp()\n\tfmt.Printf(\"GOVC-RESULT result=%%d\\n\", r)", n, height, incr, last, now, pool, ext)
+		}
+		what = fmt.Sprintf("%s with previous timestamp %s, increment %s, clock %s, pool of %s", o.Func, last, incr, now, pool)
+		m["$now"] = now
+		m["$pool"] = pool
+	default:
+		return nil
+	}
+	src := replayPrelude + "\nfunc TestGovcReplay(t *testing.T) {\n\t" + body + "\n}\n"
+	dir, err := os.MkdirTemp("", "govc-replay-")
+	if err != nil {
+		return nil
+	}
+	defer os.RemoveAll(dir)
+	testFile := filepath.Join(dir, "zz_govc_replay_test.go")
+	os.WriteFile(testFile, []byte(src), 0o644)
+	ov := map[string]any{"Replace": map[string]string{filepath.Join(repo, "zz_govc_replay_test.go"): testFile}}
+	ovb, _ := json.Marshal(ov)
+	ovFile := filepath.Join(dir, "overlay.json")
+	os.WriteFile(ovFile, ovb, 0o644)
+	cmd := exec.Command("go", "test", "-overlay", ovFile, "-vet=off", "-count=1", "-timeout", "60s", "-run", "^TestGovcReplay$", "-v", ".")
+	cmd.Dir = repo
+	cmd.Env = append(os.Environ(), "GOFLAGS=-mod=mod", "GOPROXY=off", "GOSUMDB=off", "GOTOOLCHAIN=local")
+	done := make(chan struct{})
+	var out []byte
+	go func() { out, _ = cmd.CombinedOutput(); close(done) }()
+	select {
+	case <-done:
+	case <-time.After(90 * time.Second):
+		cmd.Process.Kill()
+		return &ReplayResult{How: "replay timed out"}
+	}
+	res := &ReplayResult{How: "in-package test injected with go test -overlay: " + what, Output: string(out)}
+	obs := map[string]string{}
+	for _, l := range strings.Split(string(out), "\n") {
+		if i := strings.Index(l, "GOVC-RESULT "); i >= 0 {
+			for _, kv := range strings.Fields(l[i+len("GOVC-RESULT "):]) {
+				k, v, _ := strings.Cut(kv, "=")
+				obs[k] = v
+			}
+		}
+	}
+	if len(obs) == 0 {
+		if strings.Contains(string(out), "panic:") {
+			res.Confirmed = true
+			res.How += " -- the real code panicked on the model's inputs"
+		}
+		return res
+	}
+	res.Confirmed = checkObserved(o, m, obs)
+	if res.Confirmed {
+		res.How += fmt.Sprintf(" -- observed %v violates the clause %q", obs, o.Clause)
+	} else {
+		res.How += fmt.Sprintf(" -- observed %v satisfies the clause on these inputs (the model is not a failing input of the real code)", obs)
+	}
+	return res
+}
+
+// checkObserved evaluates the failed clause on the observed values (exact integer arithmetic).
+func checkObserved(o *Obligation, m, obs map[string]string) bool {
+	bi := func(s string) *big.Int {
+		b, ok := new(big.Int).SetString(s, 10)
+		if !ok {
+			return big.NewInt(0)
+		}
+		return b
+	}
+	n := bi(mval(m, "Context.Validators.len", "1"))
+	switch o.Func {
+	case "(*Context).N":
+		return bi(obs["result"]).Cmp(n) != 0
+	case "(*Context).F":
+		f := new(big.Int).Quo(new(big.Int).Sub(n, big.NewInt(1)), big.NewInt(3))
+		return bi(obs["result"]).Cmp(f) != 0
+	case "(*Context).M":
+		f := new(big.Int).Quo(new(big.Int).Sub(n, big.NewInt(1)), big.NewInt(3))
+		return bi(obs["result"]).Cmp(new(big.Int).Sub(n, f)) != 0
+	case "(*Context).GetPrimaryIndex":
+		h := bi(mval(m, "Context.BlockIndex", "0"))
+		v := bi(mval(m, "in.viewNumber", "0"))
+		want := new(big.Int).Mod(new(big.Int).Sub(h, v), n) // Euclidean
+		r := bi(obs["result"])
+		if strings.Contains(o.Name, "range") {
+			return r.Sign() < 0 || r.Cmp(n) >= 0
+		}
+		return r.Cmp(want) != 0
+	case "(*Context).getTimestamp", "(*Context).Fill":
+		incr := bi(mval(m, "Config.TimestampIncrement", "1"))
+		last := bi(mval(m, "Context.lastBlockTimestamp", "0"))
+		now := bi(m["$now"])
+		trunc := new(big.Int).Mul(new(big.Int).Quo(now, incr), incr)
+		if o.Func == "(*Context).getTimestamp" {
+			return bi(obs["result"]).Cmp(trunc) != 0
+		}
+		if obs["result"] != "true" {
+			return false
+		}
+		ts := bi(obs["timestamp"])
+		want := new(big.Int).Add(last, incr)
+		if trunc.Cmp(want) > 0 {
+			want = trunc
+		}
+		switch {
+		case strings.Contains(o.Name, "increasing"):
+			return ts.Cmp(last) <= 0
+		case strings.Contains(o.Name, "clock"):
+			return ts.Cmp(want) != 0
+		case strings.Contains(o.Name, "pool"):
+			return obs["hashes"] != m["$pool"]
+		}
+	}
+	return false
 }
